@@ -2,11 +2,11 @@ CONSTANTS
   Trees <- TreesH
   Chunks = 2
   LockChunks = 2
-  TaskArgs <- TaskArgsSmall
-  OpsIds <- Ops1
+  TaskArgs <- TaskArgsDef
+  OpsIds <- Ops2
   MaxCrash = 0
   MaxCreate = 2
-  MaxHist = 3
+  MaxHist = 2
   MaxHistUnlisted = 1
   RECORD_FIRST = FALSE
   OVERWRITE = FALSE
